@@ -164,6 +164,7 @@ def run(ctx):
                             break
     snapshots(ctx)
     identity_part(ctx)
+    registered_defaults(ctx)
 
 
 def strip_inferred(o):
@@ -226,6 +227,12 @@ def snapshots(ctx):
     scen.append(('ListMatrix', ListGrader, {'answers': (['[1,2]', '[3,4]'], ['[5,6]', '[7,8]']), 'subgraders': MatrixGrader(entry_partial_credit='proportional')}, [['[1,2]', '[3,4]'], ['[1,0]', '[3,4]']]))
     scen.append(('ListMatrixPlain', ListGrader, {'answers': (['[1,2]', '[3,4]'], ['[5,6]', '[7,8]']), 'subgraders': MatrixGrader()}, [['[1,2]', '[3,4]'], ['[1,0]', '[3,4]']]))
     scen.append(('Interval', IntervalGrader, {'answers': '[1,2)'}, ['[1,2)', '(1,2)', 'x']))
+    # debugged parents: the subgrader OBJECTS inside the author's configuration (and their configurations) must come out unchanged
+    scen.append(('ListDebug', ListGrader, {'answers': ['a', 'b'], 'subgraders': StringGrader(), 'debug': True}, [['a', 'b'], ['b', 'x'], ['a']]))
+    scen.append(('ListDebugSubs', ListGrader, {'answers': ['a', '2'], 'subgraders': [StringGrader(), NumericalGrader()], 'ordered': True, 'debug': True}, [['a', '2'], ['b', '1+'], ['a', '3']]))
+    scen.append(('NestedDebug', ListGrader, {'answers': [['a', 'b'], ['c', 'd']], 'subgraders': ListGrader(subgraders=StringGrader(), ordered=True), 'grouping': [1, 1, 2, 2], 'debug': True},
+                 [['a', 'b', 'c', 'd'], ['c', 'd', 'a', 'x']]))
+    scen.append(('SingleListDebug', SingleListGrader, {'answers': ['a', 'b'], 'subgrader': StringGrader(), 'debug': True}, ['a,b', 'b', 'a,b,c']))
     for rep in range(ctx.scale(2, 10)):
         order = list(range(len(scen))); rng.shuffle(order)
         for k in order:
@@ -305,6 +312,70 @@ def snapshots(ctx):
             pass
         if (vs, fs, sf) != b:
             ctx.violation('evaluator mutated the scope handed to it', {'s': s})
+
+
+def registered_defaults(ctx):
+    """course-wide defaults (register_defaults, docs/plugins.md) on one to three classes of a grader's chain: constructing graders with explicit options never
+    writes into the registered dictionaries, later graders get exactly schema defaults < superclass defaults < subclass defaults < explicit options"""
+    from mitxgraders import StringGrader, FormulaGrader, NumericalGrader, MatrixGrader, ListGrader, SingleListGrader
+    from mitxgraders.baseclasses import AbstractGrader, ItemGrader
+    rng = ctx.rng
+    chains = [
+        (StringGrader, [StringGrader, ItemGrader, AbstractGrader], dict(answers='cat'), ['cat', 'Cat', 'dog']),
+        (FormulaGrader, [FormulaGrader, ItemGrader, AbstractGrader], dict(answers='x+1', variables=['x']), ['x+1', 'x+1.3', 'x']),
+        (NumericalGrader, [NumericalGrader, FormulaGrader, ItemGrader, AbstractGrader], dict(answers='2'), ['2', '2.3', '3']),
+        (MatrixGrader, [MatrixGrader, FormulaGrader, ItemGrader], dict(answers='[1,2]'), ['[1,2]', '[1,2.3]', '[1,3]']),
+        (SingleListGrader, [SingleListGrader, ItemGrader, AbstractGrader], dict(answers=['a', 'b'], subgrader=StringGrader()), ['a,b', 'b,a', 'a']),
+    ]
+    options = {'StringGrader': [{'case_sensitive': False}, {'strip': False, 'wrong_msg': 'S'}], 'FormulaGrader': [{'tolerance': 0.5}, {'tolerance': 0.3, 'wrong_msg': 'F'}],
+               'NumericalGrader': [{'tolerance': 0.4}, {'wrong_msg': 'N'}], 'MatrixGrader': [{'tolerance': 0.5}, {'max_array_dim': 2}], 'SingleListGrader': [{'ordered': True}, {'wrong_msg': 'SL'}],
+               'ItemGrader': [{'wrong_msg': 'I'}], 'AbstractGrader': [{'attempt_based_credit_msg': False}, {'suppress_warnings': True}]}
+    explicit_pool = [dict(debug=True), dict(wrong_msg='explicit'), dict(debug=True, wrong_msg='explicit'), dict(suppress_warnings=True), {}]
+    for it in range(ctx.scale(40, 400)):
+        cls, chain, kw, inputs = rng.choice(chains)
+        layers = [(c, dict(rng.choice(options[c.__name__]))) for c in rng.sample(chain, rng.randint(1, min(3, len(chain))))]
+        layers.sort(key=lambda cd: chain.index(cd[0]))            # most specific class first
+        case = {'scenario': 'registered-defaults', 'class': cls.__name__, 'registered': [[c.__name__, d] for c, d in layers]}
+        try:
+            plain = cls(**kw)                                          # before anything is registered: the schema defaults
+            for c, d in layers:
+                c.register_defaults(d)
+            held = [(c, c.default_values, copy.deepcopy(c.default_values)) for c, _ in layers]
+            expected = dict(plain.config)
+            for c, d in reversed(layers):                              # superclass first, subclass on top
+                expected.update(d)
+            history = []
+            for step in range(rng.randint(2, 5)):
+                ex = dict(rng.choice(explicit_pool))
+                try:
+                    g = cls(**dict(kw, **ex))
+                except Exception as e:
+                    ctx.violation('constructing a grader with valid explicit options fails while defaults are registered: %s: %s' % (type(e).__name__, str(e)[:150]), dict(case, history=history, explicit=ex))
+                    break
+                history.append(ex)
+                for i in inputs:
+                    GG.run_impl(lambda: g(None, i))
+                ctx.contract_checks += 1
+                want = dict(expected, **ex)
+                plainval = lambda v: v is None or isinstance(v, (str, bool, int, float))        # options holding objects (samplers, subgraders, answers) are rebuilt per grader
+                want = {k: v for k, v in want.items() if plainval(v)}
+                got = {k: g.config[k] for k in want}
+                if deep_repr(got) != deep_repr(want):
+                    diff = [k for k in want if deep_repr(want[k]) != deep_repr(got.get(k))]
+                    ctx.violation('configuration is not schema defaults < registered defaults (superclass, then subclass) < explicit options; differing keys %s' % diff,
+                                  dict(case, history=history), impl={k: repr(got.get(k)) for k in diff}, expected={k: repr(want[k]) for k in diff})
+                    break
+                for c, obj, val in held:
+                    if c.default_values is not obj or c.default_values != val:
+                        ctx.violation('the registered defaults of %s were altered by constructing/using a grader' % c.__name__, dict(case, history=history), impl=repr(c.default_values), expected=repr(val))
+                        break
+                shared = [c.__name__ for c, obj, _ in held if g.config is obj or any(v is obj for v in g.config.values())]
+                if shared:
+                    ctx.violation("a grader's configuration IS the registered defaults dictionary of %s" % shared, dict(case, history=history))
+            ctx.case(case, nontrivial_key=('regdef', cls.__name__, repr(case['registered']), it), kind='registered-defaults:%d' % len(layers))
+        finally:
+            for c in chain:
+                c.clear_registered_defaults()
 
 
 # ---------------------------------------------------------------- object identity: coerce2unicode and the negative-power switch
